@@ -33,6 +33,10 @@ type Hooks struct {
 	Open   func(name string) (*File, error)
 	Create func(name string) (*File, error)
 	Stat   func(name string) (fs.FileInfo, error)
+	// OpenFile replaces os.OpenFile; Remove / Rename replace os.Remove / os.Rename.
+	OpenFile func(name string, flag int, perm fs.FileMode) (*File, error)
+	Remove   func(name string) error
+	Rename   func(oldName, newName string) error
 	// Go is told about `go` statements found in the instrumented package (R6).
 	Go func(f func())
 	// Blocked is called by a task that cannot take a lock (or waits for a
@@ -347,4 +351,63 @@ func SimOnce(o *sync.Once, f func()) {
 	st.running = true
 	defer func() { st.running, st.done = false, true }()
 	o.Do(f)
+}
+
+func OpenFile(name string, flag int, perm fs.FileMode) (*File, error) {
+	if h := H; h != nil && h.OpenFile != nil {
+		return h.OpenFile(name, flag, perm)
+	}
+	f, err := os.OpenFile(name, flag, perm)
+	if err != nil {
+		return nil, err
+	}
+	return &File{Real: f, Nm: name}, nil
+}
+
+func Lstat(name string) (fs.FileInfo, error) {
+	if h := H; h != nil && h.Stat != nil {
+		return h.Stat(name)
+	}
+	return os.Lstat(name)
+}
+
+func ReadFile(name string) ([]byte, error) {
+	if h := H; h != nil && h.Open != nil {
+		f, err := h.Open(name)
+		if err != nil {
+			return nil, err
+		}
+		defer f.Close()
+		return io.ReadAll(f)
+	}
+	return os.ReadFile(name)
+}
+
+func WriteFile(name string, data []byte, perm fs.FileMode) error {
+	if h := H; h != nil && h.OpenFile != nil {
+		f, err := h.OpenFile(name, os.O_WRONLY|os.O_CREATE|os.O_TRUNC, perm)
+		if err != nil {
+			return err
+		}
+		_, err = f.Write(data)
+		if e := f.Close(); err == nil {
+			err = e
+		}
+		return err
+	}
+	return os.WriteFile(name, data, perm)
+}
+
+func Remove(name string) error {
+	if h := H; h != nil && h.Remove != nil {
+		return h.Remove(name)
+	}
+	return os.Remove(name)
+}
+
+func Rename(o, n string) error {
+	if h := H; h != nil && h.Rename != nil {
+		return h.Rename(o, n)
+	}
+	return os.Rename(o, n)
 }
